@@ -231,9 +231,12 @@ def leaves(ctype, expr, tinfo, off=0):
     raise Infra("cannot flatten C type %r" % ctype)
 
 
-def bits_at(lv, off, nbytes):
-    """unsigned-integer C expression (width nbytes*8) for bytes [off, off+nbytes) of a flattened value"""
+def bits_at(lv, off, nbytes, wrap=None):
+    """unsigned-integer C expression (width nbytes*8) for bytes [off, off+nbytes) of a flattened value;
+    wrap is applied to every leaf lvalue (used for __CPROVER_old, which only accepts side-effect-free lvalues)"""
     U = {1: "u8", 2: "u16", 4: "u32", 8: "u64"}[nbytes]
+    if wrap:
+        lv = [(o, n, k, wrap(e)) for (o, n, k, e) in lv]
     for (o, n, k, e) in lv:
         if o == off and n == nbytes:
             if k == "f":
@@ -269,8 +272,7 @@ class Val:
         self.size = max(o + n for (o, n, k, e) in self.lv) if self.lv else 0
 
     def bits(self, off, nbytes):
-        e = bits_at(self.lv, off, nbytes)
-        return "__CPROVER_old(%s)" % e if self.old else e
+        return bits_at(self.lv, off, nbytes, (lambda e: "__CPROVER_old(%s)" % e) if self.old else None)
 
     def lane(self, tid, i, base=0):
         w = TYPES[tid][2] // 8
